@@ -56,7 +56,7 @@ CLAIMS = {
    "Row order is not compared. Conditions follow the C09 semantics. Two known deviations are classified by dedicated clauses (family pruning, IPv6 rendering)."),
  "C11": ("query-sim", "exploration", "7.11",
    "deterministic simulation: seeded scheduler (testing/synctest bubble + parking at every file-system operation) decides which query worker goroutine proceeds; worker count via guarded hook; results compared across configurations and with the reference model; bounded liveness for termination",
-   "One database and query run under 3-5 configurations (1-16 workers, low-mem on/off), each under a seeded schedule (uniform, burst, priority with change points, run-to-completion with preemption) that picks the next worker at every file-system operation, so bulk completion and merge order vary; rows and totals must equal the sequential run and the model. One run in eight builds 2047-2112 day directories and demands that a single-worker query returns within one simulated hour of idling.",
+   "One database and query run under 3-5 configurations (1-16 workers, low-mem on/off), each under a seeded schedule (uniform, burst, priority with change points, run-to-completion with preemption) that picks the next worker at every file-system operation, so bulk completion and merge order vary; rows and totals must equal the sequential run and the model. In one run of three the writer has just started a new day (one or two day directories without metadata, possibly with a first column file), which every configuration must skip. One run in eight builds 2047-2112 day directories and demands that a single-worker query returns within one simulated hour of idling.",
    "Interleavings are controlled at file-system operations; code between two operations runs under the Go scheduler (results are compared as multisets)."),
  "C24": ("merge-sim", "exploration", "7.24",
    "deterministic simulation (fault-free configuration): real MergeDatabases over a read-only source disk and a destination disk for generated database pairs; destination compared with an executable model of the documented per-day plan; source mutations detected at operation level",
@@ -104,8 +104,8 @@ CLAIMS = {
    "Which of two overlapping patterns wins is not demanded. Runs depend on Go map iteration order inside goProbe (enable/disable lists), so replay and minimisation steps are retried (RuntimeRandom)."),
  "C29": ("capture-sim", "exploration", "7.29",
    "deterministic simulation: real engine live queries (WithLiveData) against the running capture manager, bracketed by direct snapshots of the in-memory flows; reference aggregation over stored plus in-memory flows; paired run without live queries",
-   "After each packet batch (before and after rotations) a generated live query (attribute subsets, condition trees, direction filters) runs through engine.QueryRunner with live data; two direct snapshots taken before and after it fix the in-memory flows at its linearisation point; rows must equal the reference aggregation over stored records plus in-memory flows. The same scenario is then run without live queries and the final database contents must be equal.",
-   "Live queries are generated without the time label. A live query overlapping a rotation is skipped. Conditions with address literals of one family are excluded (C08 finding)."),
+   "One captured interface (two runs in three) or two to three captured interfaces plus, in half of those runs, an interface that only exists in the database. After each packet batch (before and after rotations) a generated live query (attribute subsets, condition trees, direction filters) runs through engine.QueryRunner with live data; two direct snapshots taken before and after it fix the in-memory flows at its linearisation point; rows must equal the reference aggregation over stored records plus in-memory flows. The same scenario is then run without live queries and the final database contents must be equal.",
+   "Live queries are generated without the time label; with several interfaces they carry the interface label or name a subset. A live query overlapping a rotation is skipped. Conditions with address literals of one family are excluded (C08 finding)."),
 }
 
 ENGINES = {
